@@ -253,7 +253,12 @@ class Engine:
         n = self.counters.get(name, 0)
         self.counters[name] = n + 1
         v = t.fresh(f"{name}!{n}" if n else name)
-        for f in t.wf(v):
+        if self.contract is not None and getattr(self.contract, "deep_wf", False):
+            from .types import deep_wf
+            facts = deep_wf(t, v)
+        else:
+            facts = t.wf(v)
+        for f in facts:
             self.pc.append(f)
         return v
 
@@ -810,6 +815,11 @@ class Engine:
         fr = self.frame
         env = fr.env
         kname = spec.index
+        active = getattr(fr, "active_loop_indices", None)
+        if active is None:
+            active = fr.active_loop_indices = []
+        if seq is not None and kname in active:
+            raise Unsupported(f"loop #{ordinal} is nested in a loop with the same ghost index name {kname!r}: give one of them another `index`")
         entry_env = dict(env)
         senv = lambda: dict(env, **{"_entry": entry_env})       # noqa: E731
         if seq is not None:
@@ -861,15 +871,24 @@ class Engine:
                 if isinstance(node.target, ast.Name) and isinstance(elem, Rec) and is_path(node.iter) and root_name(node.iter) in env \
                         and isinstance(self.read_path(self.lvalue(node.iter)), SList):
                     fr.aliases[node.target.id] = self.lvalue(node.iter) + [("idx", env[kname])]
+                # for i, x in enumerate(<path to a list of records>): x aliases the k-th element
+                if isinstance(node.target, ast.Tuple) and len(node.target.elts) == 2 and all(isinstance(e_, ast.Name) for e_ in node.target.elts) \
+                        and isinstance(node.iter, ast.Call) and isinstance(node.iter.func, ast.Name) and node.iter.func.id == "enumerate" \
+                        and len(node.iter.args) == 1 and not node.iter.keywords and is_path(node.iter.args[0]) and root_name(node.iter.args[0]) in env \
+                        and isinstance(elem, tuple) and isinstance(elem[1], Rec) and isinstance(self.read_path(self.lvalue(node.iter.args[0])), SList):
+                    fr.aliases[node.target.elts[1].id] = self.lvalue(node.iter.args[0]) + [("idx", env[kname])]
             else:
                 if not self.choose(truth(self.ev(node.test))):
                     raise PathEnd()
+            active.append(kname)
             try:
                 self.ex_block(node.body)
             except ContinueEx:
                 pass
             except BreakEx:
                 return          # continue after the loop with the current state (no else)
+            finally:
+                active.pop()
             if seq is not None:
                 env[kname] = env[kname] + 1
             for name, inv in spec.invariants:
@@ -1351,6 +1370,12 @@ class Engine:
                 return base.fields[attr]
             if base.cls == "nx.Graph" and attr == "edges":
                 return GraphEdges(base)
+            if ":" in base.cls and source.is_repo_module(base.cls.split(":")[0]):
+                # a static method reached through an instance: no receiver is bound
+                m_ = source.load(base.cls.split(":")[0])
+                q_ = f"{base.cls.split(':')[1]}.{attr}"
+                if q_ in m_.functions and "staticmethod" in [ast.unparse(d) for d in m_.functions[q_].decorator_list]:
+                    return FuncRef(base.cls.split(":")[0], q_)
             return BoundMethod(self.lvalue(node.value) if node is not None and is_path(node.value) else None, base, attr)
         if isinstance(base, SMat) and attr == "shape":
             return (base.rows, base.ncols)
@@ -1912,6 +1937,20 @@ class Engine:
             for n, v in zip(names, args):
                 env[n] = v
             env.update(kwargs)
+        # a contract with constant parameters covers that instance of the function only: pick the variant whose constants are
+        # the actual arguments (none: the call is not covered)
+        def _const_ok(c_):
+            for pn_, pt_ in c_.params.items():
+                if type(pt_).__name__ == "TConst" and not isinstance(pt_.value, FuncRef):
+                    if pn_ not in env or is_sym(env[pn_]) or env[pn_] != pt_.value:
+                        return False
+            return True
+        if not _const_ok(contract):
+            alts = [c_ for c_ in getattr(self.registry, "variants", {}).get(contract.target, []) if c_ is not contract and not c_.inline and _const_ok(c_)]
+            if not alts:
+                raise Unsupported(f"no contract instance of {fr.qual} for the constant arguments of this call (line {getattr(node, 'lineno', '?')})")
+            contract = alts[0]
+            names = list(contract.params)
         for pn, pt in contract.params.items():
             if isinstance(pt, TList) and isinstance(env.get(pn), (CList, tuple)):
                 env[pn] = to_slist(env[pn], pt.t)
